@@ -1318,6 +1318,9 @@ size_t mathmlChildCount(const XmlNodePtr &node)
 XmlNodePtr mathmlChildNode(const XmlNodePtr &node, size_t index)
 {
     auto res = node->firstChild();
+    if (res == nullptr) {
+        return nullptr;
+    }
     auto childNodeIndex = res->isMathmlElement() ? 0 : MAX_SIZE_T;
 
     while ((res != nullptr) && (childNodeIndex != index)) {
